@@ -15,6 +15,9 @@ pub const CAPS: [usize; 4] = [1, 2, 4, 1000];
 pub enum PsOp {
     RegPub,
     RegSub { cap: u8 },
+    /// a burst of registrations queued between two router steps (subscribers, every third
+    /// one a publisher), far more than the usual handful
+    RegBurst { n: u8 },
     Send { p: u16, k: u8 },
     PushErr { p: u16 },
     EndPub { p: u16 },
@@ -105,6 +108,7 @@ pub struct PsFacts {
     pub one_sided: bool,
     pub max_inner: u64,
     pub errs_pushed: usize,
+    pub bursts: usize,
     pub stream_errs_yielded: usize,
 }
 
@@ -193,6 +197,35 @@ fn run_inner(case: &PsCase, facts: &mut PsFacts) -> Result<(), Outcome> {
                             sub_after_send = true;
                         }
                     }
+                }
+            }
+            PsOp::RegBurst { n } => {
+                if !closed {
+                    let n = 12 + (*n as usize % 36);
+                    for i in 0..n {
+                        if subs.len() + pubs.len() >= 90 {
+                            break;
+                        }
+                        if i % 3 == 2 {
+                            let st = MockStream::default();
+                            if tx.try_send(pubsub::Socket::Stream(Box::pin(st.clone()))).is_ok() {
+                                pubs.push(Pub { st, pushed: vec![] });
+                                queued += 1;
+                                this_is_reg = true;
+                            }
+                        } else {
+                            let si = MockSink::new(CAPS[(i + n) % CAPS.len()]);
+                            if tx.try_send(pubsub::Socket::Sink(Box::pin(si.clone()))).is_ok() {
+                                subs.push(Sub { si, mark: None });
+                                queued += 1;
+                                this_is_reg = true;
+                                if sent_before {
+                                    sub_after_send = true;
+                                }
+                            }
+                        }
+                    }
+                    facts.bursts += 1;
                 }
             }
             PsOp::Send { p, k } => {
@@ -452,6 +485,8 @@ fn run_inner(case: &PsCase, facts: &mut PsFacts) -> Result<(), Outcome> {
 
 #[derive(Clone, Copy, Debug)]
 pub struct PsGen {
+    /// include registration bursts (dozens of sockets queued between two router steps)
+    pub bursts: bool,
     pub faults: bool,
     pub close: bool,
     pub wake_only: bool,
@@ -479,6 +514,9 @@ pub fn op_strategy(g: PsGen) -> BoxedStrategy<PsOp> {
     }
     if g.close {
         v.push((3, Just(PsOp::Close).boxed()));
+    }
+    if g.bursts {
+        v.push((2, any::<u8>().prop_map(|n| PsOp::RegBurst { n }).boxed()));
     }
     proptest::strategy::Union::new_weighted(v).boxed()
 }
